@@ -86,7 +86,7 @@ func (p *parsing) parseSwitch(tok token, end tokenTyp) ast.Node {
 			// switch ; x := y.(type) {
 			assignment, tok = p.parseAssignment(expressions, tok, false, true, true)
 			ta, ok := assignment.Rhs[0].(*ast.TypeAssertion)
-			if !ok || ta.Type != nil || len(assignment.Lhs) != 1 {
+			if !ok || ta.Type != nil || len(assignment.Lhs) != 1 || assignment.Type != ast.AssignmentDeclaration {
 				panic(cannotUseAsValueError(tok.pos, assignment))
 			}
 			afterSemicolon = assignment
@@ -138,7 +138,7 @@ func (p *parsing) parseSwitch(tok token, end tokenTyp) ast.Node {
 				// TODO (Gianluca): should error contain the position of the
 				// expression which caused the error instead of the token (as Go
 				// does)?
-				if !ok || ta.Type != nil || len(assignment.Lhs) != 1 {
+				if !ok || ta.Type != nil || len(assignment.Lhs) != 1 || assignment.Type != ast.AssignmentDeclaration {
 					panic(cannotUseAsValueError(tok.pos, assignment))
 				}
 				afterSemicolon = assignment
@@ -164,7 +164,7 @@ func (p *parsing) parseSwitch(tok token, end tokenTyp) ast.Node {
 				panic(syntaxError(tok.pos, "unexpected %s, expecting expression", want))
 			}
 			ta, ok := assignment.Rhs[0].(*ast.TypeAssertion)
-			if !ok || ta.Type != nil || len(assignment.Lhs) != 1 {
+			if !ok || ta.Type != nil || len(assignment.Lhs) != 1 || assignment.Type != ast.AssignmentDeclaration {
 				panic(cannotUseAsValueError(tok.pos, assignment))
 			}
 			afterSemicolon = assignment
